@@ -52,6 +52,7 @@ def run(tier, prop=PROP, module=MODULE, files=FILES):
     ck.proofs(module)
     if prop == "C01":
         ck.proofs("PyAbel.Props.C01Rbasex")          # rBasex inverse recovers the coefficients of its own function space from exact projections
+        ck.proofs("PyAbel.Props.C01Dasch")           # two-/three-point = exact (textbook) inverse Abel integral of the interpolant of the samples
     if prop == "C02":
         ck.proofs("PyAbel.Props.C02Rbasex")          # rBasex forward is exact on radially piecewise-linear distributions, every order
     corr_operators(ck, tier)
